@@ -52,7 +52,8 @@ func runC01(p *engine.Prog, r *engine.Report) {
 	r.Min("R1.5-posted-is-planned", 2)
 	r.Min("R1.6-cached-report", 2)
 	r.Min("R1.7-one-snapshot", 1)
-	r.Min("R1.8-crash-freedom", 3)
+	r.Min("R1.8-crash-freedom", 5)
+	r.Min("R1.9-gc-first", 1)
 
 	// ---- R1.1 + R1.2
 	for i, st := range c.fieldStores {
@@ -469,6 +470,10 @@ func runC01(p *engine.Prog, r *engine.Report) {
 	}
 	c.checkDivisions(r)
 	c.checkNonNilReports(r)
+	if activeT != nil {
+		c.checkStatusDerefs(r, activeT)
+	}
+	c.checkGCFirst(r)
 }
 
 // ownBase renders m[k] of a Lookup with its version (without the has()/tuple wrapper).
